@@ -82,8 +82,9 @@ theorem C19_events_once_in_order_update (c : Cfg) (s : State) (h : Nat) (o : Obj
     exact ⟨⟨fun h => absurd h this.1, fun h => by simp at h⟩, fun h => absurd h this.1, fun _ => this.2⟩
 
 /-- **lazy update, as the code does it.**  A lazy `set` / assignment delivers the before-events
-    (once each) and nothing else — no write, no after-event, the table is untouched; the rewritten
-    column values become pending.  `syncUpdate` with something pending contributes exactly one
+    (once each) and nothing else — no write, no after-event, the table is untouched; when it
+    succeeds the rewritten column values become pending, when it fails (rejected value or unknown
+    keyword after the listeners' edits) nothing at all changes (fix bf075e4).  `syncUpdate` with something pending contributes exactly one
     UPDATE carrying all pending values followed by the after-events (once each) and their
     callbacks, and no before-event; with nothing pending it contributes nothing.
     (So one lazy write is preceded by one block of before-events per assignment since the last
@@ -92,8 +93,10 @@ theorem C19_events_once_in_order_update (c : Cfg) (s : State) (h : Nat) (o : Obj
 theorem C19_events_lazy (c : Cfg) (s : State) (h : Nat) (o : Obj) (kw : Kw) (hl : c.lazy = true) :
     tags (opSet c s h o kw).2.1 = evTags c .update
     ∧ (opSet c s h o kw).1.rows = s.rows
-    ∧ (vecInvalid (colVec c.ncols (updKw c kw)) = false →
+    ∧ ((opSet c s h o kw).2.2 = .ok ↔ kwOk c (updKw c kw))
+    ∧ ((opSet c s h o kw).2.2 = .ok →
         (opSet c s h o kw).1 = s.setObj h { o with pending := mergeVec o.pending (colVec c.ncols (updKw c kw)) })
+    ∧ ((opSet c s h o kw).2.2 ≠ .ok → (opSet c s h o kw).1 = s)
     ∧ (vecEmpty o.pending = true → opSyncUpdate c s h o = (s, [], .ok))
     ∧ (vecEmpty o.pending = false →
         (opSyncUpdate c s h o).2.2 = .ok
@@ -101,7 +104,7 @@ theorem C19_events_lazy (c : Cfg) (s : State) (h : Nat) (o : Obj) (kw : Kw) (hl 
         ∧ (opSyncUpdate c s h o).1.rows = updRows s.rows o.id o.pending
         ∧ (opSyncUpdate c s h o).1.objs = s.objs.set h { o with pending := List.replicate c.ncols none }) := by
   have := set_lazy c s h o kw hl
-  exact ⟨this.1, this.2.1, this.2.2.1, syncUpdate_nothing c s h o, syncUpdate_pending c s h o⟩
+  exact ⟨this.1, this.2.1, this.2.2.2.2, this.2.2.1, this.2.2.2.1, syncUpdate_nothing c s h o, syncUpdate_pending c s h o⟩
 
 /-- **events, exactly once, in order — destroy.** -/
 theorem C19_events_once_in_order_destroy (c : Cfg) (s : State) (o : Obj) :
